@@ -353,7 +353,7 @@ func binop(op token.Token, t types.Type, x, y value) value {
 			return i.symBinop(op, x, y)
 		}
 	} else if isPoison(x) || isPoison(y) {
-		return poison{}
+		return poisonOf(x, y)
 	}
 	switch op {
 	case token.ADD:
@@ -860,7 +860,7 @@ func unop(fr *frame, instr *ssa.UnOp, x value) value {
 		return fr.i.symUnop(instr.Op, s)
 	}
 	if isPoison(x) {
-		return poison{}
+		return x
 	}
 	switch instr.Op {
 	case token.ARROW: // receive
@@ -1183,7 +1183,7 @@ func conv(t_dst, t_src types.Type, x value) value {
 	ut_src := t_src.Underlying()
 	ut_dst := t_dst.Underlying()
 	if isPoison(x) {
-		return poison{}
+		return x
 	}
 	if r, ok := symConvHook(ut_dst, ut_src, x); ok {
 		return r
